@@ -433,7 +433,11 @@ def table_cat(ctx):
     mv = prog.fn(PKG + "make_validation_columns")
     S = Sym(prog, mv)
     cs = symcalls(prog, mv, S)
-    ok = any(n.endswith("Category::all") for b, n, args, t in cs) and any(n.endswith("ColumnBuilder::enum_values") and "collect" in args[1] for b, n, args, t in cs)
+    uses_all = any(cname(prog, t).endswith("Category::all") for g in prog.unit(mv) for b, t in g.calls())
+    names = any(cname(prog, t).endswith("Category::as_str") or (t.get("callee") or "").endswith("ToString::to_string") for g in prog.unit(mv) for b, t in g.calls()) or \
+        any("Category::as_str" in str(t.get("args")) for g in prog.unit(mv) for b, t in g.calls())
+    # the value list handed to enum_values is the collected (or pushed-together) names of all(): a vector, not a literal list
+    ok = uses_all and any(n.endswith("ColumnBuilder::enum_values") and ("collect" in args[1] or "Vec" in args[1]) and "agg{" not in args[1] for b, n, args, t in cs)
     ctx.check(ok, R, "_Validation.Category enumerates all()", "", "the Category column of _Validation is not built from Category::all()", mv.loc(), fn=mv.name)
 
 
